@@ -99,7 +99,7 @@ func baseConfig(s Spec, r *rand.Rand, o Opt) vnet.Config {
 	if o.Dyn == 2 || (o.Dyn == 1 && r.Intn(3) == 0) {
 		cfg.MaxTPB = cfg.TPB * time.Duration(pickInt(r, []int{2, 3, 4, 8, 20})) / 2
 	}
-	cfg.MaxSteps = 6000 + 1500*cfg.N
+	cfg.MaxSteps = max(6000+1500*cfg.N, 2000*cfg.Heights+80*cfg.N*cfg.N*cfg.Heights)
 	cfg.MaxClock = time.Duration(cfg.Heights) * 400 * cfg.TPB
 	cfg.K.SlowNode = -1
 	cfg.K.ResetDelayNode = -1
